@@ -125,6 +125,20 @@ func (r *Registry) PushManifest(ctx context.Context, repoName string, tag string
 			}
 		}
 	}
+	if r.cfg.ImmutableTags {
+		if b := repo.manifests[dig]; b != nil && b.mediaType != mediaType {
+			// Storing the same content under another media type would change
+			// what any tag that refers to it, directly or indirectly, means
+			// (and which blobs it keeps alive).
+			ok, err := refersTo(repo, repoTagIter(repo), dig)
+			if err != nil {
+				return ociregistry.Descriptor{}, err
+			}
+			if ok {
+				return ociregistry.Descriptor{}, fmt.Errorf("%w: mismatched media type", ociregistry.ErrDenied)
+			}
+		}
+	}
 	// make a copy of the data to avoid potential corruption.
 	data = append([]byte(nil), data...)
 	if err := CheckDescriptor(desc, data); err != nil {
